@@ -114,6 +114,11 @@ static double _GD_GetIndex(DIRFILE* D, gd_entry_t *E, int repr, double value,
           _GD_SetError(D, GD_E_DOMAIN, GD_E_DOMAIN_EMPTY, NULL, 0, NULL);
           dreturn("%.15g", sample);
           return sample;
+        } else if (dir == -1) {
+          /* every sample up to the end-of-field has the same value */
+          _GD_SetError(D, GD_E_RANGE, GD_E_SINGULAR_RANGE, NULL, 0, NULL);
+          dreturn("%.15g", sample);
+          return sample;
         }
 
         sample = _GD_Extrapolate(D, E, repr, value, low, 1);
@@ -133,6 +138,11 @@ static double _GD_GetIndex(DIRFILE* D, gd_entry_t *E, int repr, double value,
         if (c - low == 1) {
           if (low == field_start) {
             _GD_SetError(D, GD_E_DOMAIN, GD_E_DOMAIN_EMPTY, NULL, 0, NULL);
+            dreturn("%.15g", sample);
+            return sample;
+          } else if (dir == -1) {
+            /* every sample up to the end-of-field has the same value */
+            _GD_SetError(D, GD_E_RANGE, GD_E_SINGULAR_RANGE, NULL, 0, NULL);
             dreturn("%.15g", sample);
             return sample;
           }
@@ -174,6 +184,11 @@ static double _GD_GetIndex(DIRFILE* D, gd_entry_t *E, int repr, double value,
           /* above our guess -- still need to look for the end */
           low = c;
           low_v = c_v;
+        } else {
+          /* our guess was unexpectedly correct */
+          sample = (double)c;
+          dreturn("%.15g", sample);
+          return sample;
         }
       }
     }
